@@ -7,7 +7,8 @@ from ..function import Function
 from ..number import Context
 from ..primitive import Primitive
 from .call_graph import CallGraph
-from .define_use import AssignDef, DefineUse, DefineUseAnalysis
+from .define_use import AssignDef, DefineUse, DefineUseAnalysis, Definition, PhiDef
+from .reaching_defs import same_object_defs
 
 
 class _ImpureError(Exception):
@@ -63,11 +64,56 @@ class _Purity(DefaultVisitor):
                 # any other foreign callable (e.g. `print`) -> impure by default
                 raise _ImpureError(f'Impure: call to foreign function {e}')
 
+    def _may_be_outer(self, d: Definition, seen: set[int]) -> bool:
+        """Whether the list that `d` names may be one this function did not
+        create: an argument or a captured value, reached directly, through
+        earlier element stores and merges (which keep the object), or through
+        a variable that aliases it or one of its elements."""
+        idx = self.def_use.def_to_idx[d]
+        if idx in seen:
+            return False
+        seen.add(idx)
+        if isinstance(d, PhiDef) or isinstance(d.site, IndexedAssign):
+            return any(
+                self._may_be_outer(self.def_use.defs[i], seen)
+                for i in same_object_defs(d)
+            )
+        match d.site:
+            case Argument() | FuncDef():
+                return True
+            case Assign(expr=e):
+                pass
+            case ForStmt(iterable=e):
+                # the loop target names the elements of the iterable
+                pass
+            case _:
+                return False
+        sources = [e]
+        while sources:
+            e = sources.pop()
+            match e:
+                case Var():
+                    if self._may_be_outer(self.def_use.find_def_from_use(e), seen):
+                        return True
+                case ListRef():
+                    sources.append(e.value)
+                case IfExpr():
+                    sources += [e.ift, e.iff]
+                case TupleExpr():
+                    sources += list(e.elts)
+                case Call():
+                    # may hand back (part of) one of its arguments
+                    return True
+                case _:
+                    # a literal, a comprehension, `empty`, a slice, ...: a new list
+                    pass
+        return False
+
     def _visit_indexed_assign(self, stmt: IndexedAssign, ctx: None):
         super()._visit_indexed_assign(stmt, ctx)
         d = self.def_use.find_def_from_use(stmt)
-        if isinstance(d, AssignDef) and isinstance(d.site, Argument | FuncDef):
-            # modifying an argument or a free variable
+        if self._may_be_outer(d, set()):
+            # modifying (a list reachable from) an argument or a free variable
             raise _ImpureError(f'Impure: Indexed assignment {stmt}')
 
 
